@@ -1,40 +1,46 @@
-From Coq Require Import List ZArith Bool Lia.
+From Coq Require Import List ZArith Bool Lia PeanoNat.
 From TskVerif Require Import C08.Shapes.
 Import ListNotations.
 
-(* a documented call (one index tuple, two windows) raises instead of returning shape [2] *)
-Lemma proportion_shape_witness :
-  proportion_shape (Some 2) false 5 (Some (true, 1)) = None /\
-  documented_shape (Some 2) false 5 (Some (true, 1)) = [2].
+Lemma broadcastable_refl s : broadcastable s s = true.
+Proof. induction s as [|d s IH]; simpl; [reflexivity|]. rewrite Nat.eqb_refl, IH. reflexivity. Qed.
+
+Lemma broadcastable_app_one s n : broadcastable (s ++ [1]) (s ++ [n]) = true.
+Proof.
+  induction s as [|d s IH]; simpl.
+  - rewrite orb_true_r. reflexivity.
+  - rewrite Nat.eqb_refl, IH. reflexivity.
+Qed.
+
+(* the repaired shaping never raises and gives the documented shape, for every combination
+   of windows / mode / indexes *)
+Lemma proportion_shape_total windows node_mode num_nodes indexes :
+  proportion_shape windows node_mode num_nodes indexes =
+  Some (documented_shape windows node_mode num_nodes indexes).
+Proof.
+  unfold proportion_shape, documented_shape, out_shape, denominator_shape.
+  set (l := lead windows node_mode num_nodes).
+  destruct indexes as [[[|] n]|].
+  - replace (Nat.eqb (length l) (S (length l))) with false
+      by (symmetry; apply Nat.eqb_neq; lia).
+    rewrite broadcastable_refl. reflexivity.
+  - rewrite app_length. simpl.
+    replace (Nat.eqb (length l + 1) (S (length l))) with true
+      by (symmetry; apply Nat.eqb_eq; lia).
+    rewrite broadcastable_app_one. reflexivity.
+  - replace (Nat.eqb (length l) (S (length l))) with false
+      by (symmetry; apply Nat.eqb_neq; lia).
+    rewrite broadcastable_refl. reflexivity.
+Qed.
+
+Example proportion_shape_former_witness :
+  proportion_shape (Some 2) false 5 (Some (true, 1)) = Some [2] /\
+  proportion_shape (Some 3) true 5 (Some (false, 2)) = Some [3; 5; 2].
 Proof. split; reflexivity. Qed.
 
-Lemma proportion_shape_raises :
+(* historical: the pinned pre-fix shaping raised for a documented call *)
+Lemma proportion_shape_pinned_raises :
   exists windows node_mode num_nodes,
-    (* one index tuple: a documented way of calling the method *)
-    proportion_shape windows node_mode num_nodes (Some (true, 1)) = None /\
+    proportion_shape_pinned windows node_mode num_nodes (Some (true, 1)) = None /\
     documented_shape windows node_mode num_nodes (Some (true, 1)) = [2].
 Proof. exists (Some 2), false, 5. split; reflexivity. Qed.
-
-(* with a list of index tuples (or indexes=None) the shaping always succeeds *)
-Lemma set_last_app (s : shape) n v : set_last (s ++ [n]) v = s ++ [v].
-Proof.
-  induction s as [|h t IH]; [reflexivity|].
-  change ((h :: t) ++ [n]) with (h :: (t ++ [n])).
-  destruct t as [|h2 t2]; [reflexivity|].
-  change (set_last (h :: (h2 :: t2) ++ [n]) v) with (h :: set_last ((h2 :: t2) ++ [n]) v).
-  rewrite IH. reflexivity.
-Qed.
-
-Lemma size_app_one (s : shape) : size (s ++ [1]) = size s.
-Proof. induction s as [|h t IH]; simpl; [reflexivity | rewrite IH; reflexivity]. Qed.
-
-Lemma proportion_shape_ok_for_index_lists windows node_mode num_nodes n :
-  proportion_shape windows node_mode num_nodes (Some (false, n)) =
-  Some (documented_shape windows node_mode num_nodes (Some (false, n))) /\
-  proportion_shape windows node_mode num_nodes None =
-  Some (documented_shape windows node_mode num_nodes None).
-Proof.
-  split; [|reflexivity]. unfold proportion_shape, documented_shape, out_shape, denominator_shape.
-  destruct (lead windows node_mode num_nodes) as [|d ds] eqn:E; [reflexivity|].
-  unfold reshape. rewrite set_last_app, size_app_one, Nat.eqb_refl. reflexivity.
-Qed.
